@@ -7,7 +7,7 @@ V=$(cd "$(dirname "$0")/.." && pwd)
 ids=${@:-$(ls $V/seeded | grep -v RESULTS)}
 for id in $ids; do
   d=$V/seeded/$id
-  prop=$(python3 -c "import json;print(json.load(open('$d/meta.json'))['property'])")
+  prop=$(python3 -c "import json;m=json.load(open('$d/meta.json'));print(m.get('reported_by', m['property']))")
   wt=$(mktemp -d /tmp/seedwt-XXXXXX); rmdir $wt
   git -C /repo worktree add -q $wt HEAD || { echo "$id: cannot create worktree"; continue; }
   if ! git -C $wt apply $d/patch.diff 2>/dev/null; then echo "$id property=$prop: patch does not apply to HEAD"; git -C /repo worktree remove --force $wt; continue; fi
